@@ -12,7 +12,8 @@ CASE_TIMEOUT = 3000
 REQUIRED_COUNTERS = ["trees_model_evaluated", "optima_compared"]
 RULE = ("small single-Einsum specs (matmul / matvec / elementwise, bounds from {2,3,4} (thorough: up to 9), two-level "
         "(thorough: also three-level) hierarchies, inf / generous / tight capacities, keep/may_keep variants, trade-off / "
-        "random / cheap-inner cost tables); the declared mapspace is enumerated as concrete LoopTrees (storage subsets "
+        "random / cheap-inner cost tables; plus four-level DEDICATED-buffer hierarchies Main -> GLB{keep two tensors} -> XB{keep X} -> "
+        "XR{may_keep X} with tight sizes); the declared mapspace is enumerated as concrete LoopTrees (storage subsets "
         "allowed by keep/may_keep, node orders, divisor chains of every bound placed in every gap, loop orders inside a "
         "gap) and EVERY tree is evaluated by the real model; the mapper's best ENERGY / LATENCY / EDP must equal the "
         "enumerated minimum. A spec whose space exceeds the budget is skipped and counted, never truncated; a mapper "
